@@ -918,20 +918,29 @@ def obligations(ctx):
     omp = ans[2]
     verdict_loops = dict(zip(loops, ans[4:4 + len(loops)]))
     verdict_ests = dict(zip(ests, ans[4 + len(loops):]))
-    n_ob = 1 + len(loops) + len(ests)
     _GEN['verdict_ests'] = verdict_ests
     _GEN['verdict_loops'] = verdict_loops
     ctx.extra['prange_loops'] = verdict_loops
     ctx.extra['estimator_classes'] = verdict_ests
     ctx.extra['omp_flags_setup_py'] = omp
     ctx.extra['float_reductions'] = {n: v.split('inexact=')[1] for n, v in verdict_loops.items() if 'inexact=' in v}
+    findings = core.load_findings()
+    known_negative = {}      # obligation name -> finding id: false *because of* a recorded known finding
+    new_false = []           # false, and nothing recorded explains it
     if ans[3] != 'holds':
+        new_false.append('crsOK')
         ctx.broken('crsOK', {'table': _GEN['crs']}, {'obligation': 'crsOK', 'entry': 'check_random_state'})
     for n, v in verdict_loops.items():
         ctx.count('prange:' + v.split(' ')[0])
         if not v.startswith('racefree'):
-            ctx.broken('raceFree:' + n, {'verdict': v, 'descriptor': next(l for l in _GEN['loops'] if l['name'] == n)['accs']},
-                       _loop_sig(n))
+            sig = _loop_sig(n)
+            f = core.match_finding(findings, ctx.prop, sig)
+            if f is not None:
+                known_negative['raceFree:' + n] = f['id']
+            else:
+                new_false.append('raceFree:' + n)
+            ctx.broken('raceFree:' + n, {'verdict': v, 'descriptor': next(l for l in _GEN['loops'] if l['name'] == n)['accs']}, sig)
+    not_covered = []
     for n, v in verdict_ests.items():
         ctx.count('history:' + v.split(' ')[0])
         if v.startswith('ok'):
@@ -939,8 +948,17 @@ def obligations(ctx):
         why = v[4:]
         if why.startswith('opaque:') and n in OPAQUE_EXPECTED:
             ctx.count('history:opaque-expected')
+            not_covered.append(n)
             continue
-        ctx.broken('historyOK:' + n, {'verdict': v, 'description': _GEN['descs'][n]}, _est_sig(n, why))
+        sig = _est_sig(n, why)
+        f = core.match_finding(findings, ctx.prop, sig)
+        if f is not None:
+            known_negative['historyOK:' + n] = f['id']
+        else:
+            new_false.append('historyOK:' + n)
+        ctx.broken('historyOK:' + n, {'verdict': v, 'description': _GEN['descs'][n]}, sig)
+    ctx.extra['known_negative_obligations'] = known_negative
+    ctx.extra['classes_outside_the_description_language'] = not_covered
     # kernel check of the verdicts
     gp, ge = 'SkNet.Generated.Prange', 'SkNet.Generated.EstimatorState'
     out = ['/- generated by tools/harness/c16.py: kernel check of the verdicts the driver gave on the generated data -/',
@@ -968,11 +986,16 @@ def obligations(ctx):
     if not ok or hits:
         failed = max(1, len(set(m for m in __import__('re').findall(r'C16Obligations\.lean:(\d+)', log))))
         ctx.broken('kernel-check', {'log': log[-1500:], 'forbidden': hits}, {'obligation': 'kernel-check'})
+    # obligations = what is required to hold on this tree: the true verdicts (kernel-checked) and every false one that
+    # no recorded known finding explains; a known-negative descriptor is covered by its kernel-checked negation
+    # (`= false := by decide` in the same file) and by the witness theorems of Properties/C16.lean, and is listed
+    # under `known_negative_obligations`; classes outside the description language are not obligations at all.
     true_ones = sum(1 for v in verdict_loops.values() if v.startswith('racefree')) + \
         sum(1 for v in verdict_ests.values() if v.startswith('ok')) + (1 if ans[3] == 'holds' else 0)
-    ctx.extra['generated_obligations'] = n_ob
+    ctx.extra['generated_obligations'] = true_ones + len(new_false)
     ctx.extra['generated_discharged'] = max(0, true_ones - failed) if ok else 0
     ctx.extra['generated_kernel_checked'] = len(names) if ok and not hits else 0
+    ctx.extra['generated_new_false'] = new_false
     return verdict_loops, verdict_ests
 
 
